@@ -291,7 +291,12 @@ fn e1(ctx: &Ctx, res: &mut PartResult, pb: usize, two_pushers: bool, two_consume
             // with more pushes than capacity the replacement branch decides what is retained: only "nothing invented, nothing twice"
             if npush as usize <= cap && seen.len() as u64 != npush {
                 // recorded: only the value of a push caught unfinished by a drain can go missing
-                let missing_are_late = (1..=npush).filter(|v| !seen.contains(&(*v as f64).to_bits())).all(|v| late.contains(&v));
+                // ... or the value of a push that ran concurrently with such a late push: the late push stores into the slot
+                // it claimed before the drain reset the count, which a push that claimed the same index after the reset has
+                // just written (same mechanism, the victim is the other pusher's value; needs two pushers)
+                let late_iv: Vec<(usize, usize)> = pushes.iter().zip(&push_vals).filter(|(_, v)| late.contains(v)).map(|(iv, _)| *iv).collect();
+                let beside_late: Vec<u64> = pushes.iter().zip(&push_vals).filter(|((pc, pr), _)| late_iv.iter().any(|(lc, lr)| pc < lr && lc < pr)).map(|(_, v)| *v).collect();
+                let missing_are_late = (1..=npush).filter(|v| !seen.contains(&(*v as f64).to_bits())).all(|v| late.contains(&v) || beside_late.contains(&v));
                 let s = if missing_are_late { sig("pushed-value-never-yielded") } else { "pushed-value-never-yielded".to_string() };
                 return Verdict::Fail { sig: s, msg: format!("{} values pushed (capacity 4) but only {:?} ever yielded (log {:?})", npush, yielded, log) };
             }
